@@ -68,6 +68,7 @@ J conc_to_json(const ConcCase& c) {
   for (const ZoneSpec& z : c.zones) {
     J jz = J::obj();
     jz.set("key", z.key); jz.set("literal", z.literal); jz.set("base", z.base); jz.set("state", z.state);
+    if (z.file_prefix) jz.set("file_prefix", true);
     if (z.null_times) jz.set("null_times", z.null_times);
     if (z.eio_times) jz.set("eio_times", z.eio_times);
     zs.push(jz);
@@ -109,6 +110,7 @@ bool conc_from_json(const J& j, ConcCase* c) {
   for (const J& jz : j.at("zones").a) {
     ZoneSpec z;
     z.key = jz.gets("key"); z.literal = jz.getb("literal"); z.base = jz.gets("base"); z.state = jz.gets("state", "healthy");
+    z.file_prefix = jz.getb("file_prefix");
     z.null_times = static_cast<int>(jz.geti("null_times")); z.eio_times = static_cast<int>(jz.geti("eio_times"));
     c->zones.push_back(z);
   }
@@ -280,7 +282,17 @@ ConcCase gen_conc(const std::string& property, const std::string& tier, uint64_t
   }
   int nz = static_cast<int>(wl.range(1, is_c20 ? 4 : 5));
   if (wl.chance(0.3)) nz = 1;  // maximal contention
-  for (int i = 0; i < nz; ++i) c.zones.push_back(gen_zone(&wl, i, true, i > 0 || wl.chance(0.2)));
+  for (int i = 0; i < nz; ++i) {
+    c.zones.push_back(gen_zone(&wl, i, true, i > 0 || wl.chance(0.2)));
+    // Occasionally the next name is the previous one with a "file:" prefix: same data, but a different name
+    // (its own cache entry, its own single factory call).
+    if (i + 1 < nz && !c.zones.back().literal && wl.chance(0.12)) {
+      ZoneSpec alias = c.zones.back();
+      alias.file_prefix = true;
+      c.zones.push_back(alias);
+      ++i;
+    }
+  }
   if (c.mode == "faulted") {
     for (ZoneSpec& z : c.zones) if (!z.literal && z.state == "healthy" && fl.chance(0.7)) {
       if (fl.chance(0.5)) z.null_times = static_cast<int>(fl.range(1, 2)); else z.eio_times = static_cast<int>(fl.range(1, 2));
@@ -428,7 +440,7 @@ struct Exec {
 
   std::string fullname(int z) const {
     const ZoneSpec& zs = c.zones[static_cast<size_t>(z)];
-    return zs.literal ? zs.key : "sim/" + salt + "/" + zs.key;
+    return zs.literal ? zs.key : std::string(zs.file_prefix ? "file:" : "") + "sim/" + salt + "/" + zs.key;
   }
   std::string twinname(int z) const { return "twin/" + salt + "/" + c.zones[static_cast<size_t>(z)].key; }
 
@@ -848,6 +860,8 @@ Outcome exec_conc(const ConcCase& c, bool keep_log, Stats* stats) {
     stats->add("steps", sr.steps);
     stats->add("switches", sr.switches);
     stats->add("contended_lock_waits", sr.contended_locks);
+    if (sr.cond_waits) stats->add("cond_waits", sr.cond_waits);
+    if (sr.cond_timeouts) stats->add("cond_timeouts", sr.cond_timeouts);
     stats->add("loads", static_cast<int64_t>(x.loads.size()));
     stats->add("queries", static_cast<int64_t>(x.queries.size()));
     stats->add("factory_calls", static_cast<int64_t>(ncalls));
